@@ -888,6 +888,62 @@ def run_pipeline(tier, mc_cases_fn):
     return vocab, cases, ev2, stats
 
 
+def compile_only(name, sources):
+    """sources = [(label, vocab, cases)]: generate every case with the real code and compile all emitted files as modules of
+    one crate (phase A of the pipeline only).  Returns [(label, vocab, cases, events)], events per case id."""
+    pipe = Pipeline(name)
+    shutil.rmtree(pipe.dir, ignore_errors=True)
+    pipe.write_crate_base()
+    out, mods = [], {}
+    for label, vocab, cases in sources:
+        dump = os.path.join(pipe.dir, "dump_" + label)
+        traces, _ = z.run_harness(vocab, cases, f"{name}_{label}", shards=min(8, max(1, len(cases))), dump=dump)
+        gen = {}
+        for t in traces:
+            cur = None
+            for line in open(t):
+                e = json.loads(line)
+                if e["ev"] == "case":
+                    cur = e["id"]
+                    gen[cur] = {"ret": None, "write": None}
+                elif e["ev"] == "ret" and cur is not None:
+                    gen[cur]["ret"] = e["outcome"]
+                elif e["ev"] == "written" and cur is not None:
+                    gen[cur]["write"] = e["outcome"]
+        events = {c["id"]: [] for c in cases}
+        for c in cases:
+            g = gen.get(c["id"], {})
+            src = os.path.join(dump, str(c["id"]), "out.rs")
+            ok = g.get("ret") == "doc" and g.get("write") == "ok" and os.path.exists(src)
+            events[c["id"]].append({"ev": "generated", "ok": ok, "read": g.get("ret") or "none", "write": g.get("write") or "none"})
+            if ok:
+                mod = f"{label}_{c['id']}"
+                shutil.copy(src, os.path.join(pipe.crate, "gen", f"case_{mod}.rs"))
+                mods[mod] = (label, c["id"])
+        out.append((label, vocab, cases, events))
+    remaining = sorted(mods)
+    errs = {}
+    for _ in range(4):
+        pipe.write_main(remaining, [])
+        rc, o, err = cargo(["check", "--offline", "--message-format=json", "-q"], pipe.crate)
+        if rc == 0:
+            break
+        eb = errors_by_file(o)
+        bad = set()
+        for f, msgs in eb.items():
+            m = re.search(r"case_([A-Za-z0-9]+_\d+)\.rs", f)
+            if m:
+                bad.add(m.group(1))
+                errs.setdefault(m.group(1), []).extend(msgs)
+        if not bad:
+            raise z.ToolError("compile-only crate does not build and no generated file is to blame:\n" + err[-2000:])
+        remaining = [m for m in remaining if m not in bad]
+    by_label = {lab: ev for lab, _, _, ev in out}
+    for mod, (label, cid) in mods.items():
+        by_label[label][cid].append({"ev": "compiled", "ok": mod in remaining, "errors": errs.get(mod, [])[:5]})
+    return out
+
+
 def find_xmllint():
     for c in (shutil.which("xmllint"), "/root/miniconda/bin/xmllint", "/usr/bin/xmllint"):
         if c and os.path.exists(c):
